@@ -111,7 +111,7 @@ Inductive csteps : cfg -> cfg -> Prop :=
 (* ---------- typing ---------- *)
 Fixpoint prog_ok (ps : list pitem) (g : ghost) : Prop :=
   match ps with
-  | [] => True
+  | [] => g_refs g b0 = 0%nat /\ g_free g b0 = false      (* a thread ends holding nothing and owing nothing *)
   | POp c :: r => okc c g (fun _ g' => prog_ok r g')
   | PSpawn ch k :: r => (k <= g_refs g b0)%nat /\ kof ch = k /\ prog_ok r (g_give g k)
   | PJoin ch :: r => prog_ok r g
@@ -451,5 +451,31 @@ Proof.
     + destruct (ok_write s t W1 Ht' Hst) as (s' & E); [destruct Hag as (_ & A2 & _); congruence|].
       do 3 eexists. apply S_move. exact E.
     + do 3 eexists. apply S_move_o. exact Hne.
+Qed.
+
+(* ---------- the end: when every started thread has run to completion the buffer has been released ---------- *)
+Definition finished (x : tcfg) : Prop := cur x = Ret tt /\ rest x = [].
+
+Lemma total_zero l : (forall t, refs (nth t l dth) = 0) -> total l = 0.
+Proof.
+  induction l as [|x l IH]; intros H; [reflexivity|]. rewrite total_cons.
+  pose proof (H 0) as H0. cbn [nth] in H0. rewrite H0. cbn. apply IH. intros t. exact (H (S t)).
+Qed.
+
+Theorem all_finished_released cf :
+  WT cf -> (forall t, t < length (tc cf) -> started (getth (ms cf) t) = true -> finished (gettc cf t)) ->
+  Mach.live (ms cf) = false.
+Proof.
+  intros [W1 W2 W3 W4] Hfin.
+  assert (Hall : forall t, refs (getth (ms cf) t) = 0 /\ mustfree (getth (ms cf) t) = false).
+  { intros t. destruct (started (getth (ms cf) t)) eqn:Hst.
+    - destruct (Nat.lt_ge_cases t (length (tc cf))) as [Ht|Ht].
+      + destruct (W3 t Ht Hst) as ((A1 & _ & A3 & _) & Hok). destruct (Hfin t Ht Hst) as (Hc & Hr).
+        rewrite Hc, Hr in Hok. cbn [okc prog_ok] in Hok. destruct Hok as (R0 & F0). split; congruence.
+      + unfold getth in Hst. rewrite nth_overflow in Hst by lia. discriminate.
+    - destruct (J8 _ W1 t Hst) as (R0 & M0 & _). auto. }
+  destruct (Mach.live (ms cf)) eqn:Hl; [exfalso|reflexivity].
+  assert (H0 : total (ths (ms cf)) = 0) by (apply total_zero; intros t; apply Hall).
+  destruct (J9 _ W1 Hl H0) as (t & Hm). destruct (Hall t) as (_ & Hm'). unfold T in Hm. congruence.
 Qed.
 End Compose.
